@@ -342,6 +342,37 @@ pub fn run(tier: &str) -> Result<Report, String> {
                 })
                 .collect();
             rep.violations.extend(bad.into_iter().take(10));
+            // ... and the number of spare variable sets a formula needs is its QUANTIFIER nesting depth, whatever stands next to it
+            // in a batch: after a taller formula without quantifiers, a formula that nests one more quantifier than the graph has
+            // spare sets must be refused with an error (all four multi-formula string entry points)
+            let tall = "AG (EF (AG (EF (AG (EF (AX a))))))";
+            let shallow: Vec<(String, usize)> = sel.iter().map(|t| (t.render(), t.qdepth())).filter(|(_, d)| *d >= 1 && *d <= 3).collect();
+            let bad2: Vec<Violation> = shallow
+                .par_iter()
+                .filter_map(|(text, d)| {
+                    let g = biodivine_hctl_model_checker::mc_utils::get_extended_symbolic_graph(&bn, (*d - 1) as u16).ok()?;
+                    let none = std::collections::HashMap::new();
+                    let runs: Vec<(&str, Result<Result<usize, String>, String>)> = vec![
+                        ("model_check_multiple_formulae_dirty", guarded(std::panic::AssertUnwindSafe(|| mc::model_check_multiple_formulae_dirty(vec![tall, text.as_str()], &g).map(|v| v.len())))),
+                        ("model_check_multiple_formulae", guarded(std::panic::AssertUnwindSafe(|| mc::model_check_multiple_formulae(vec![tall, text.as_str()], &g).map(|v| v.len())))),
+                        ("model_check_multiple_extended_formulae_dirty", guarded(std::panic::AssertUnwindSafe(|| mc::model_check_multiple_extended_formulae_dirty(vec![tall, text.as_str()], &g, &none).map(|v| v.len())))),
+                        ("model_check_multiple_extended_formulae", guarded(std::panic::AssertUnwindSafe(|| mc::model_check_multiple_extended_formulae(vec![tall, text.as_str()], &g, &none).map(|v| v.len())))),
+                    ];
+                    for (name, r) in runs {
+                        let what = match r {
+                            Ok(Err(_)) => None,
+                            Ok(Ok(_)) => Some("returns results".to_string()),
+                            Err(p) => Some(format!("panics: {p}")),
+                        };
+                        if let Some(w) = what {
+                            return Some(Violation { case: json!({"kind": "none"}), what: format!("{name}([{tall}, {text}]) on a graph with {} spare variable sets (the second formula nests {d} quantifiers) {w}", d - 1), size: 20 });
+                        }
+                    }
+                    None
+                })
+                .collect();
+            n_sem += shallow.len() as u64;
+            rep.violations.extend(bad2.into_iter().take(10));
         }
         rep.evaluations += n_sem * 6;
         rep.set("well_scoped_trees_evaluated_as_written_and_preprocessed", json!(n_sem));
